@@ -389,13 +389,19 @@ func c42StreamExec(ctx *vk.Ctx, c c42Stream) error {
 		if err != nil {
 			return fmt.Errorf("a->b with transport faults %+v: %v", c.WFaults, err)
 		}
-		var onWire []byte
+		// What the reader may deliver: it opens the j-th 1044-byte window of the wire under counter
+		// nonce j, and the writer sealed its j-th frame under nonce j, so window j is authentic
+		// exactly when its bytes are the j-th sealed frame — decided on the real wire bytes (a torn
+		// frame whose missing tail happens to equal the head of the next frame IS that frame).
+		var stream []byte
 		for _, wr := range wire {
-			if len(wr.seg.b) == 0 {
-				continue // nothing of this frame reached the wire: the stream is not torn
-			}
-			if len(wr.seg.b) != c42Sealed {
-				break // a torn frame: nothing after it can be trusted by the reader
+			stream = append(stream, wr.seg.b...)
+		}
+		var onWire []byte
+		for j, wr := range wire {
+			lo, hi := j*c42Sealed, (j+1)*c42Sealed
+			if hi > len(stream) || !bytes.Equal(stream[lo:hi], wr.seg.orig) {
+				break // torn or shifted: nothing from here on can be authenticated by the reader
 			}
 			onWire = append(onWire, wr.chunk...)
 		}
@@ -408,7 +414,7 @@ func c42StreamExec(ctx *vk.Ctx, c c42Stream) error {
 		}
 		ctx.NTIf(hit)
 		ctx.ClassIf(hit, "write-fault-hit")
-		ctx.ClassIf(hit && len(got) == len(onWire), "write-fault-all-wire-frames-delivered")
+		ctx.ClassIf(hit && len(got) == len(onWire), "write-fault-all-authentic-windows-delivered")
 		ctx.ClassIf(!hit, "write-fault-beyond-stream")
 		return nil
 	}
